@@ -783,8 +783,8 @@ mod expression_parser {
       if let Token(_peeked_let_loc, TokenContent::Keyword(Keyword::Let)) = parser.peek() {
         associated_comments.append(&mut parser.consume());
         let pattern = super::pattern_parser::parse_matching_pattern(parser, Vec::new());
-        associated_comments.append(&mut parser.assert_and_consume_operator(TokenOp::Assign).1);
-        let expr = parse_expression(parser);
+        let (_, assign_comments) = parser.assert_and_consume_operator(TokenOp::Assign);
+        let expr = parse_expression_with_additional_preceding_comments(parser, assign_comments);
         expr::IfElseCondition::Guard(pattern, expr)
       } else {
         expr::IfElseCondition::Expression(parse_expression(parser))
@@ -1787,8 +1787,10 @@ mod expression_parser {
     } else {
       None
     };
-    concrete_comments.append(&mut parser.assert_and_consume_operator(TokenOp::Assign).1);
-    let assigned_expression = Box::new(parse_expression(parser));
+    // The comments before `=` stay where they are written: in front of the assigned expression.
+    let (_, assign_comments) = parser.assert_and_consume_operator(TokenOp::Assign);
+    let assigned_expression =
+      Box::new(parse_expression_with_additional_preceding_comments(parser, assign_comments));
     let (end_loc, mut additional_comments) = parser.assert_and_consume_operator(TokenOp::Semicolon);
     concrete_comments.append(&mut additional_comments);
     let loc = start_loc.union(&end_loc);
